@@ -24,7 +24,7 @@ def clone_empty(same, tr, b, x, elem, L=2, tier="quick"):
     H(name, call, props, tier=tier, unwind=unwind_for(elem, L + 2), dims=dict(L=L, elem=elem, backend=b, target_backend=x, traits=tr, shape_symbolic=True), role="c08_cloneempty")
 
 
-def lazy(src, how, depth, uses, tr, b, by, elem, L=2, tier="quick"):
+def lazy(src, how, depth, uses, tr, b, by, elem, L=2, tier="quick", also=()):
     if (how == "Splice" or uses >= 2) and by in ("heap", "reloc"):
         # a splice at a symbolic position into resizable storage has a symbolic allocation size; several
         # consecutive pushes/inserts into a possibly-full heap vector multiply reallocation paths
@@ -32,7 +32,7 @@ def lazy(src, how, depth, uses, tr, b, by, elem, L=2, tier="quick"):
     name = "c09_lazy_%s_%s_d%d_u%d__%s_%s_%s_%s__L%d" % (src.lower(), how.lower(), depth, uses, tr, b, by, elem, L)
     call = "c08::lazy_h::<%s, %s, %s, %s>(%s, c08::LzSrc::%s, c08::LzUse::%s, %d, %d)" % (
         TR[tr], bk(b, elem, L + 1), bk(by, elem, L + 3), elem, P(L + 1, "s%d" % L, "s%d" % L, L + 3, "s1", "s%d" % (L + 1)), src, how, depth, uses)
-    H(name, call, ["C09"], tier=tier, unwind=unwind_for(elem, L + 4), dims=dict(L=L, source=src, consumption=how, chain_depth=depth, consumptions=uses, elem=elem, backend=b, backend2=by, traits=tr, shape_symbolic=True), role="c09_lazy_%s" % src.lower())
+    H(name, call, ["C09"] + list(also), tier=tier, unwind=unwind_for(elem, L + 4), dims=dict(L=L, source=src, consumption=how, chain_depth=depth, consumptions=uses, elem=elem, backend=b, backend2=by, traits=tr, shape_symbolic=True), role="c09_lazy_%s" % src.lower())
 
 
 LSRC = ["ElemRef", "ElemMut", "Handle", "Drained"]
@@ -61,12 +61,14 @@ def define():
     clone_empty(False, "clone", "heap", "stackn", "B3D")
     clone_empty(False, "csend", "heap", "reloc", "B3D")
     # C09 quick: every source kind and every consumption kind once, depths 1..3, uses 0..3
-    lazy("ElemRef", "Push", 1, 2, "clone", "heap", "heap", "B3D")
+    lazy("ElemRef", "Push", 1, 2, "clone", "heap", "heap", "B3D", also=("C13",))   # also: what a lazy clone reports about itself
     lazy("ElemMut", "Insert", 2, 1, "clone", "heap", "stack", "W8D")
     lazy("Handle", "Splice", 3, 1, "clone", "stack", "stack", "B3D")
     lazy("Drained", "Downcast", 2, 2, "clone", "heap", "heap", "B3D")
     lazy("ElemRef", "Insert", 3, 3, "call", "heap", "heap", "B3D")
     lazy("Handle", "Push", 1, 0, "clone", "heap", "heap", "W8D")
+    lazy("Handle", "Push", 1, 0, "clone", "heap", "heap", "B3D", also=("C13",))
+    lazy("Drained", "Push", 1, 1, "clone", "heap", "heap", "B3D", also=("C13",), tier="rot2")
     lazy("ElemRef", "Downcast", 1, 1, "clone", "heap", "heap", "D24D", L=1)
     # zero-sized element with drop glue and an observable Clone
     lazy("ElemRef", "Push", 1, 1, "clone", "heap", "heap", "Z0D")
